@@ -25,6 +25,7 @@ Oracle
 """
 import itertools
 import threading
+import time
 import uuid
 
 from hypothesis import strategies as st
@@ -53,7 +54,7 @@ ASSUMPTIONS = ["the daemon's own annotations() hook returns {} or (half of the c
                "a served method making an outgoing Pyro call is part of the domain ('calls from several clients': the daemon's own proxy is one of them); the context the inner call sees is not judged (its request is not sent by the harness)",
                "every well-formed call the harness sends must execute (otherwise its snapshot cannot be judged): a call that never ran is reported"]
 
-HANG = 60.0
+HANG = 25.0
 B62 = "0123456789abcdefghijklmnopqrstuvwxyzABCDEFGHIJKLMNOPQRSTUVWXYZ"
 
 LOCK = threading.Lock()
@@ -160,16 +161,31 @@ def _body(token, mode, gate):
 def _start_held(tok, wait_body=False):
     ev = HELD_EVT.get(tok)
     if ev is not None:
-        ev.wait(HANG)
+        # until the thread of this call is parked - or the call has been carried out some other way (then there is nothing to start)
+        body = EVENTS.get(tok)
+        t_end = time.time() + HANG
+        while not ev.wait(0.005) and not (body is not None and body.is_set()) and time.time() < t_end:
+            pass
     with LOCK:
         t = HELD.pop(tok, None)
         DEFER.discard(tok)
     if t is not None:
         threading.Thread.start(t)
-        if wait_body:
-            e2 = EVENTS.get(tok)
-            if e2 is not None:
-                e2.wait(HANG)
+    if wait_body:
+        _await_body(tok)
+
+
+def _await_body(tok, ceiling=None):
+    """wait until the body of a oneway call has run.  When it does not within 2 s the daemon may have handed the call to a thread it
+    has already - possibly one the harness is holding back: every parked thread is started then (a legal schedule)"""
+    e2 = EVENTS.get(tok)
+    if e2 is None or e2.wait(2.0):
+        return True
+    with LOCK:
+        parked = list(HELD)
+    for t in parked:
+        _start_held(t)
+    return e2.wait(HANG if ceiling is None else ceiling)
 
 
 def _gone_converter(classname, d):
@@ -216,18 +232,38 @@ def _classes():
     return Target
 
 
+def _token_of(thread):
+    """which deferred oneway call does this freshly created thread carry?  The call's arguments are somewhere among the thread's
+    attributes (the token is their first element); looked up by value so that the layout of the thread class does not matter"""
+    import collections
+
+    def walk(v, depth):
+        if type(v) is int and not isinstance(v, bool):
+            return v if v in DEFER else None
+        if depth and isinstance(v, (tuple, list, collections.deque)):
+            for x in list(v)[:4]:
+                r = walk(x, depth - 1)
+                if r is not None:
+                    return r
+        return None
+    for name, v in sorted(vars(thread).items()):
+        if name.startswith("_") and not name.startswith("_OnewayCallThread"):
+            continue        # threading.Thread's own fields
+        r = walk(v, 3)
+        if r is not None:
+            return r
+    return None
+
+
 def _held_start(self):
     """replacement for Thread.start on the daemon's oneway thread class: park the thread when the harness asked for it"""
-    try:
-        tok = self.pyro_vargs[0]
-    except Exception:       # noqa
-        tok = None
     with LOCK:
-        OW_THREADS.append(self)
         try:
-            hold = tok in DEFER
-        except TypeError:
-            hold = False
+            tok = _token_of(self)
+        except Exception:       # noqa
+            tok = None
+        OW_THREADS.append(self)
+        hold = tok is not None and tok in DEFER
         if hold:
             HELD[tok] = self
             ev = HELD_EVT.get(tok)
@@ -531,7 +567,7 @@ class _Run(object):
             self.proxy_request(conn, kind, args, [tok], [tok], st_, what, oneway=oneway, batch=False)
         if oneway:
             if owmode == "await":
-                EVENTS[tok].wait(HANG)
+                _await_body(tok)
             elif owmode == "defer1":
                 self.pending_defer.append((idx + 1, tok))
             elif owmode == "deferend":
@@ -581,7 +617,7 @@ class _Run(object):
                 live.wait_for(peer_known, 2.0)      # the reset has reached the server's socket (stimulus only, no verdict)
         finally:
             GONE_GO[tok].set()
-        if not EVENTS[tok].wait(5.0):
+        if not _await_body(tok, 5.0):
             # the request was decoded completely; normal latency from here to the method body is far below a millisecond.
             # (reported at once instead of waiting HANG seconds in every such case; evaluate() would say the same)
             self.viol("call-not-run:peer-gone", "%s never ran (no snapshot for token %d within 5 s after the request had been decoded)" % (what, tok))
